@@ -508,7 +508,10 @@ func c01Run(rt *hookrt.Runtime, c *c01Case, stall time.Duration) {
 	case <-time.After(30 * time.Second):
 		c.mu.Lock()
 		c.Notes = append(c.Notes, "teardown hung")
-		c.Quiet = false
+		buf := make([]byte, 1<<20)
+		c.Dump = string(buf[:runtime.Stack(buf, true)])
+		// not a C01 verdict: the pipeline had already reached (or failed to reach) quiescence;
+		// termination of Router.Close / GoChannel.Close is C06 / C07
 		c.mu.Unlock()
 	}
 	c.mu.Lock()
@@ -695,6 +698,8 @@ func cmdC01(args []string) error {
 	doubles := fs.Bool("doubles", false, "enumerate double-fault placements (2 stages x 2 messages)")
 	big := fs.Bool("big", false, "allow up to 20 source messages in random cases")
 	stallMs := fs.Int("stall", 8000, "give a case up when nothing happened for this many ms")
+	only := fs.Int("only", -1, "run only the case with this id (debugging)")
+	repeat := fs.Int("repeat", 1, "with -only: run it this many times")
 	fs.Parse(args)
 	rng := rand.New(rand.NewSource(*seed))
 	rt := hookrt.Install(*seed)
@@ -719,6 +724,18 @@ func cmdC01(args []string) error {
 	for i := 0; i < *nrand; i++ {
 		cases = append(cases, c01Gen(rng, id, *big))
 		id++
+	}
+	if *only >= 0 {
+		var sel []*c01Case
+		for _, c := range cases {
+			if c.ID == *only {
+				for i := 0; i < *repeat; i++ {
+					cc := *c
+					sel = append(sel, &cc)
+				}
+			}
+		}
+		cases = sel
 	}
 	stalled := 0
 	for _, c := range cases {
